@@ -54,7 +54,7 @@ BASE = dict(Clients={"A", "B"}, Sides={"A", "B", "X"}, Nameplates={"4", "5"},
             AppId=Raw('[c \\in {"A","B"} |-> "app"]'),
             CodeChoices=Raw('[c \\in {"A","B"} |-> {<<"4", "w">>}]'),
             AllowAllocate=set(), AllowInput=set(), MaxSend=0, MaxDrops=0, MaxDup=0, MaxSwap=0, MaxInject=0,
-            MaxTamper=0, MaxHelper=0, KnownErrs=set(), InjectSet=Raw("{}"), LateFrames=False, ReentKinds=set(), WelcomeErr=False, ConnFails=False, MaxCloseAt=0)
+            MaxTamper=0, MaxHelper=0, KnownErrs=set(), InjectSet=Raw("{}"), LateFrames=False, ReentKinds=set(), WelcomeErr=False, ConnFails=False, MaxSrvErr=0, MaxCloseAt=0)
 
 
 DELEG = Raw('[c \\in {"A","B"} |-> "delegated"]')
@@ -103,6 +103,8 @@ def cfgs_for(prop, tier):   # noqa: F811  (replaces the draft above)
     elif prop == "C08":
         out["close_both"] = mk(AllowClose={"A", "B"})
         out["close_drop"] = mk(AllowClose={"A"}, MaxDrops=F(1, 0))
+        out["srv_error"] = mk(AllowClose={"A"}, MaxSrvErr=1)
+        out["srv_error_send"] = mk(MaxSrvErr=1, MaxSend=F(1, 0))
         out["close_welcome_err"] = mk(AllowClose={"A"}, WelcomeErr=True, CodeChoices=Raw('[c \\in {"A","B"} |-> IF c = "A" THEN {<<"4","w">>} ELSE {}]'))
         if not q:
             out["close_drop_welcome"] = mk(AllowClose={"A"}, MaxDrops=F(1, 0), WelcomeErr=True)
@@ -187,7 +189,7 @@ class RealRun:
         for name, cl in self.world.clients.items():
             if getattr(cl, "closed_at", None) is None and any(k == "closed" for k, _ in cl.events):
                 cl.closed_at = self.world.stepno
-        if act["a"] in ("Drop", "Dup", "SwapS2C", "TamperS2C", "Inject", "AppClose", "ConnFail", "LateDeliver", "AppAllocate",
+        if act["a"] in ("Drop", "Dup", "SwapS2C", "TamperS2C", "Inject", "AppClose", "ConnFail", "LateDeliver", "AppAllocate", "SrvSend",
                         "AppInput", "ArmClose"):
             self.nontrivial.add(act["a"])
         if spec_act is not None:
@@ -548,6 +550,8 @@ def world_to_spec(run, a):
         return {"a": "Dup", "c": cname(a["k"]), "x": str(a["m"] + 1), "y": "*"}
     if t == "SwapS2C":
         return {"a": "Swap", "c": cname(a["k"]), "x": str(a["i"] + 1), "y": "*"}
+    if t == "SrvSend" and a["msg"].get("type") == "error":
+        return {"a": "SrvError", "c": cname(a["k"]), "x": "*", "y": "*"}
     return None
 
 
@@ -590,6 +594,7 @@ def random_real_walk(tid, rng, prop, steps=60):
     budget = {"Drop": rng.choice([0, 1, 2]), "Dup": rng.choice([0, 1]), "SwapS2C": rng.choice([0, 1]),
               "send": {"A": rng.choice([0, 1, 2]), "B": rng.choice([0, 1, 2])},
               "close": prop in ("C08", "C14", "C18") and rng.random() < 0.8, "welcome_error": False}
+    budget["SrvErr"] = rng.choice([0, 0, 1]) if prop in ("C08", "C14", "C18") else 0
     if prop in ("C03", "C09", "C02", "C01"):
         budget["close"] = False
     codes = {"A": "4-alpha-beta", "B": "4-alpha-beta"}
@@ -611,6 +616,10 @@ def random_real_walk(tid, rng, prop, steps=60):
             acts.append(a)
             if t in ("Serve", "Deliver"):
                 acts.append(a)      # bias towards progress
+        if budget["SrvErr"] > 0 and rng.random() < 0.3:
+            for conn in w.conns:
+                if conn.state == "open" and not conn.closing:
+                    acts.append({"a": "SrvSend", "k": conn.id, "msg": {"type": "error", "error": "unprovoked", "orig": {}}})
         for c in ("A", "B"):
             if w.clients[c].mode == "deferred" and prop in ("C18", "C08", "C14") and rng.random() < 0.12 and late_budget[c] > 0:
                 kinds = ["code", "key", "verifier", "versions", "welcome"]
@@ -651,6 +660,8 @@ def random_real_walk(tid, rng, prop, steps=60):
             budget[t] -= 1
         elif t == "AppGet":
             late_budget[a["c"]] -= 1
+        elif t == "SrvSend":
+            budget["SrvErr"] -= 1
         run.apply(a, spec_act=world_to_spec(run, a))
     drained = run.drain()
     if prop in ("C18", "C08") :
@@ -738,7 +749,7 @@ def run_trace_validation(wd, lines, ntraces):
             f.write(json.dumps(l) + "\n")
     consts = dict(BASE)
     consts.update(MaxSend=F(9, 9), MaxDrops=F(9, 9), AllowClose={"A", "B"}, MaxDup=9, MaxSwap=9, AllowAllocate={"A", "B"},
-                  AllowInput={"A", "B"}, LateFrames=True, WelcomeErr=True, ConnFails=True, MaxHelper=99,
+                  AllowInput={"A", "B"}, LateFrames=True, WelcomeErr=True, ConnFails=True, MaxHelper=99, MaxSrvErr=9,
                   ReentKinds={"welcome", "code", "key", "verifier", "versions", "message"},
                   CodeChoices=Raw('[c \\in {"A","B"} |-> {<<"4", "w">>, <<"4", "v">>, <<"5", "w">>}]'))
     common.write_model(wd, "MC_Trace", "WormholeTrace", consts, spec="TSpec", constraint="Mark", postcondition="Post",
